@@ -1201,7 +1201,9 @@ func (ex *Exec) callbackCall(st *State, cb *Val, e *ast.CallExpr) *Val {
 		}
 	}
 	var idx *Val
-	if idxPos >= 0 {
+	if cs := ex.fc.Calls[cn]; cs != nil && cs.At != nil {
+		idx = ex.specVal(st, cs.At, nil)
+	} else if idxPos >= 0 {
 		idx = args[idxPos]
 	} else if ip.At != nil {
 		idx = ex.specVal(st, ip.At, nil)
@@ -1239,6 +1241,16 @@ func (ex *Exec) callForwardIter(st *State, cn int, cfi *FuncInfo, cfc *FuncContr
 	ip := cfc.Iter
 	seen := st.ghost["seen"].T
 	stopped := st.ghost["stopped"].T
+	var shift *Term
+	if cs := ex.fc.Calls[cn]; cs != nil && cs.Shift != nil {
+		shift = ex.specVal(st, cs.Shift, nil).T
+	}
+	shiftIdx := func(j *Term) *Term {
+		if shift == nil {
+			return j
+		}
+		return mk("+", SInt, j, shift)
+	}
 	ex.oblige(st, "proto", fmt.Sprintf("proto.call%d.notstopped", cn), tNot(stopped), where+": no search continues after the callback returned false")
 	{
 		pst := st.clone()
@@ -1256,13 +1268,18 @@ func (ex *Exec) callForwardIter(st *State, cn int, cfi *FuncInfo, cfc *FuncContr
 			}
 		}
 		d := ex.w.trSpec(ip.Dom, env.with(map[string]*Val{ip.IdxVar: jv})).T
-		ex.oblige(pst, "proto", fmt.Sprintf("proto.call%d.domfresh", cn), tImp(d, tNot(tSelect(seen, j))), where+": callee's domain has not been reported yet")
+		ex.oblige(pst, "proto", fmt.Sprintf("proto.call%d.domfresh", cn), tImp(d, tNot(tSelect(seen, shiftIdx(j)))), where+": callee's domain has not been reported yet")
 	}
 	seen1 := ex.fresh("seen", seen.S)
 	stopped1 := ex.fresh("stopped", SBool)
 	bvCounter++
 	i := cnst(fmt.Sprintf("%s$%d", ip.IdxVar, bvCounter), SInt)
-	ienv := env.with(map[string]*Val{ip.IdxVar: tv(i, types.Typ[types.Int])})
+	// the callee's index i corresponds to the caller's index i + shift
+	ci := i
+	if shift != nil {
+		ci = mk("-", SInt, i, shift)
+	}
+	ienv := env.with(map[string]*Val{ip.IdxVar: tv(ci, types.Typ[types.Int])})
 	dm := tAnd(ex.w.trSpec(ip.Dom, ienv).T, ex.w.trSpec(ip.Match, ienv).T)
 	ex.assume(st, tOr(stopped1, &Term{Op: "forall", BVars: []*Term{i}, S: SBool, Args: []*Term{tImp(dm, tSelect(seen1, i))}}))
 	ex.assume(st, &Term{Op: "forall", BVars: []*Term{i}, S: SBool, Args: []*Term{tAnd(tImp(tSelect(seen1, i), tOr(tSelect(seen, i), dm)), tImp(tSelect(seen, i), tSelect(seen1, i)))}})
